@@ -28,8 +28,9 @@ CookieCreds(FS) == {Cred("cookie", "good", fs, "alice") : fs \in FS} \cup
 BasicCreds  == {Cred("basic", v, {}, "alice") : v \in {"ok", "badpw", "nouser", "upper"}}
 KmCertCreds == {Cred("kmcert", v, {}, "alice") : v \in {"good", "old23h", "expired", "denied", "adminca",
                                                          "selfsigned", "chain1"}}
+\* loopback_xff: the TCP peer is 127.0.0.1 (outside the netblocks) and the request carries X-Forwarded-For / X-Real-Ip naming an inside address
 \* outside_near: a peer outside the (non octet aligned) netblock but inside the octet aligned block around it
-IpCertCreds == {Cred("ipcert", v, {}, "svc") : v \in {"inside", "outside", "outside_near", "inside_notauto", "chain1_inside",
+IpCertCreds == {Cred("ipcert", v, {}, "svc") : v \in {"inside", "outside", "outside_near", "loopback_xff", "inside_notauto", "chain1_inside",
                                                        "chain1_outside"}}
 Creds(FS) == {NoCred} \cup CookieCreds(FS) \cup BasicCreds \cup KmCertCreds \cup IpCertCreds
 
